@@ -44,7 +44,10 @@ def s_float():
 
 def s_power():
     return st.fixed_dictionaries({"kind": st.just("power"), "q": st.lists(gens.signed_logmag(-2, 2), min_size=4, max_size=4),
-                                  "n": st.integers(-6, 6), "unit": st.booleans()})
+                                  "n": st.integers(-6, 6), "unit": st.booleans(),
+                                  # components forced to exactly zero: real quaternions (scalars), pure ones, minus identity, ...
+                                  "zero": st.one_of(st.just([False] * 4), st.just([False] * 4), st.lists(st.booleans(), min_size=4, max_size=4),
+                                                    st.just([False, True, True, True]), st.just([True, False, False, False]))})
 
 
 def unitq_pos():
@@ -309,10 +312,15 @@ def _power(case):
     b = L.base
     q = arr(case["q"])
     n = case["n"]
+    for i_, z_ in enumerate(case.get("zero", [False] * 4)):
+        if z_:
+            q[i_] = 0.0
     if case["unit"]:
+        if not np.any(q):
+            return []
         q = q / np.linalg.norm(q)
     nq = float(np.linalg.norm(q))
-    c = Checker("power", n=n, unit=case["unit"])
+    c = Checker("power", n=n, unit=case["unit"], real=bool(not np.any(q[1:])), pure=bool(q[0] == 0))
     want = np.array([1.0, 0, 0, 0])
     for _ in range(abs(n)):
         want = refs.qmul(want, q)
